@@ -641,8 +641,14 @@ def parent(args):
           "wall_s": round(wall, 2), "violations": n_viol}
     if merged["harness"]:
         ev["coverage"]["harness_errors"] = merged["harness"][:5]
-    os.makedirs(os.path.join(ROOT, "evidence"), exist_ok=True)
-    with open(os.path.join(ROOT, "evidence", f"{prop}.json"), "w") as fh:
+    # evidence describes runs against /repo itself; a run against another
+    # checkout (VERIF_REPO, used to try seeded changes) writes elsewhere
+    ev_dir = os.path.join(ROOT, "evidence")
+    if os.path.realpath(os.environ.get("VERIF_REPO", "/repo")) != \
+            os.path.realpath("/repo"):
+        ev_dir = os.path.join(ROOT, ".scratch", "evidence-other-checkout")
+    os.makedirs(ev_dir, exist_ok=True)
+    with open(os.path.join(ev_dir, f"{prop}.json"), "w") as fh:
         json.dump(ev, fh, indent=1, default=str)
     print(f"{prop} tier={tier} seed={seed}: evaluations="
           f"{cov['evaluations']} nontrivial={cov['distinct_nontrivial']} "
